@@ -21,9 +21,10 @@ class C04(Prop):
     id = 'C04'
     stages = ('S1', 'S25', 'S6')
     rule = 'rows mixing label characters (ASCII, 2-byte Latin/Cyrillic, double-width CJK, combining marks) with spaces and drawing characters, a connecting row beneath; exhaustive spacing patterns for short rows over a small alphabet, random grids otherwise (tag- and legend-free), and rows with quoted segments (wide characters inside) followed by labels; non-trivial when the input has a character without table entry'
-    level_text = ('Theorems C04_merge_keeps_every_character_in_its_cell (a merged text occupies exactly the cells of its two parts, double-width included), C04_span_merge_keeps_text (through the whole merge loop the (cell, character) pairs shown as text are a permutation of those that entered: nothing dropped, duplicated, reordered or shifted; by the additive form of M2), C04_label_enters_in_its_cell. '
-                  'Grouping/endorsement/enclosure only move fragments; that and the anchoring are decided by correspondence and oracle.')
-    level_note = 'partial: from merged fragments to emitted text elements (grouping, endorsement, enclosure, anchor) by correspondence plus oracle'
+    level_text = ('Theorems C04_merge_keeps_every_character_in_its_cell (a merged text occupies exactly the cells of its two parts, double-width included), C04_span_merge_keeps_text (through the whole merge loop the (cell, character) pairs shown as text are a permutation of those that entered: nothing dropped, duplicated, reordered or shifted; by the additive form of M2), C04_label_enters_in_its_cell, '
+                  'C04_text_is_anchored_inside_its_first_cell (for every text fragment and every scale the text element is anchored strictly inside the cell of its first character), C04_short_inputs_shown_exactly_once (from the input text through the whole recognition: for EVERY input of the stated short shapes over {blank, a, b, a double-width CJK character, -} the (cell, character) pairs of all text fragments that come out are exactly the label characters of the input at their display columns, each once; sweep inside Coq). '
+                  'Longer inputs and the enclosure pass (which only moves fragments) are decided by correspondence and oracle.')
+    level_note = 'partial: for inputs beyond the swept shapes the step from merged fragments to emitted text elements (grouping, endorsement, enclosure) relies on correspondence plus oracle'
     def make(self, gen, text):
         return Item(gen, {'main': Run(text, '', 'settings')}, {'text': text}, lambda t: self.make(gen, t))
     def items(self, rng, tier):
